@@ -143,6 +143,15 @@ impl BRC20ProgEngine {
 
         let mut block_number = self.get_next_block_height()?;
 
+        // Either every requested block is mined or none: a generated hash that is already in use
+        // (a block submitted with that explicit hash) is detected before the first block is finalised
+        {
+            let db = self.db.read();
+            for number in block_number..block_number.saturating_add(block_count) {
+                db.require_block_does_not_exist(generate_block_hash(number), number)?;
+            }
+        }
+
         if self.get_block_by_number(0, false)?.is_none() {
             let genesis_hash = B256::ZERO;
             let genesis_timestamp = timestamp;
